@@ -93,7 +93,7 @@ def to_events(world, build, cols, copy, lo=0, hi=None):
     """Genome-ordered events of the columns lo..hi (RefSeq orientation) of a copy placed at the
     gene (copy 0) or pseudogene (copy 1) locus."""
     plus = world.strand[build] == "+"
-    base0 = OFFS[build][copy] - 1
+    base0 = world.offs(build)[copy] - 1
     glen = world.glen()
     hi = glen if hi is None else hi
     sel = cols[lo:hi]
@@ -110,7 +110,7 @@ def plain_events(G, s0, e0):
 
 
 def locus_bounds(world, build, copy):
-    base0 = OFFS[build][copy] - 1
+    base0 = world.offs(build)[copy] - 1
     return base0, base0 + world.glen()
 
 
